@@ -439,6 +439,175 @@ def redirect_worker(_job):
     return acc
 
 
+# ------------------------------------------------------------------ (c') redirection issued at any moment of a running session
+def late_redirect_run(cfg, chooser):
+    """A process is created with PIPEs; after k packet deliveries the application (optionally reads n bytes
+    and then) redirects stdout or stderr to a target.  Whatever was not read before must arrive in the target,
+    complete and in order, whenever the redirection happens -- before any data, with the stream buffer full
+    and the channel paused, after EOF, after exit."""
+    size, which, kind, k, preread = cfg['size'], cfg['which'], cfg['kind'], cfg['k'], cfg['preread']
+    root = os.path.join(SCRATCH, 'lr%d' % os.getpid())
+    os.makedirs(root, exist_ok=True)
+    out_data = bytes((i * 7 + 1) % 251 for i in range(size))
+    err_data = bytes((i * 5 + 3) % 241 for i in range(size if which == 'stderr' else 30))
+    if which == 'stderr':
+        out_data = out_data[:30]
+    loop = P.fresh(0)
+    P.install_wire_labels()
+    viol = []
+    try:
+        async def handler(process):
+            if process.command == 'sink':
+                got = await process.stdin.read()
+                process.stdout.write(got)
+                process.exit(0)
+                return
+            process.stdout.write(out_data)
+            process.stderr.write(err_data)
+            process.exit(7)
+        pair = P.Pair(loop, sopts=dict(process_factory=handler, encoding=None))
+        pair.handshake()
+        st = {}
+
+        async def client():
+            proc = await pair.c.create_process('src', encoding=None, window=64, max_pktsize=32)
+            st['proc'] = proc
+            if kind == 'process':
+                st['sink'] = await pair.c.create_process('sink', encoding=None)
+        t = loop.create_task(client())
+        loop.flush_all(horizon=2000) if False else None
+        # open the sessions with default scheduling, but hold the source's data back: the server handler only
+        # starts once the exec request is delivered, so step until both processes exist
+        steps = 0
+        redirected = False
+        rt = None
+        pre = {}
+
+        async def do_redirect():
+            proc = st['proc']
+            rd = proc.stdout if which == 'stdout' else proc.stderr
+            if preread:
+                pre['data'] = await rd.read(preread)
+            if kind == 'path':
+                target = os.path.join(root, 'target')
+            elif kind == 'file':
+                st['fobj'] = open(os.path.join(root, 'target'), 'wb')
+                target = st['fobj']
+            elif kind == 'devnull':
+                target = asyncssh.DEVNULL
+            else:
+                target = st['sink'].stdin
+            if which == 'stdout':
+                await proc.redirect_stdout(target)
+            else:
+                await proc.redirect_stderr(target)
+        if os.path.exists(os.path.join(root, 'target')):
+            os.unlink(os.path.join(root, 'target'))
+        while True:
+            loop.quiesce()
+            if not redirected and t.done() and steps >= k:
+                redirected = True
+                rt = loop.create_task(do_redirect())
+                loop.quiesce()
+            opts = [x for x in (pair.ct, pair.st) if x in loop.deliverable()]
+            if not opts:
+                if loop.pending_jobs():
+                    loop.fire_job(0)
+                    continue
+                if not redirected and t.done():
+                    redirected = True
+                    rt = loop.create_task(do_redirect())
+                    continue
+                break
+            kk = chooser.choose(len(opts), label='deliver') if len(opts) > 1 else 0
+            P.deliver_packet(loop, opts[kk])
+            if t.done():
+                steps += 1
+            if steps > 5000:
+                raise Livelock('too many deliveries')
+        res = {}
+
+        async def finish():
+            res['r'] = await st['proc'].wait()
+            if kind == 'process':
+                res['s'] = await st['sink'].wait()
+        ft = loop.create_task(finish())
+        loop.flush_all(horizon=200000)
+        if 'fobj' in st:
+            try:
+                st['fobj'].close()
+            except OSError:
+                pass
+        want = out_data if which == 'stdout' else err_data
+        other_want = err_data if which == 'stdout' else out_data
+        if rt is None or not rt.done():
+            viol.append(('redirect-hangs', 'redirect call pending'))
+        elif rt.exception() is not None:
+            viol.append(('redirect-raised', repr(rt.exception())))
+        elif not ft.done():
+            viol.append(('wait-hangs', 'wait() pending after redirect at step %d' % k))
+        elif ft.exception() is not None:
+            viol.append(('wait-raised', repr(ft.exception())))
+        else:
+            r = res['r']
+            p = pre.get('data', b'')
+            if kind in ('path', 'file'):
+                got = open(os.path.join(root, 'target'), 'rb').read()
+            elif kind == 'process':
+                got = res['s'].stdout
+            else:
+                got = None
+            left = r.stdout if which == 'stdout' else r.stderr
+            other = r.stderr if which == 'stdout' else r.stdout
+            if not want.startswith(p):
+                viol.append(('redirect-data', 'read(%d) before the redirect returned bytes that are not the head of the stream' % preread))
+            elif got is not None and p + got != want:
+                viol.append(('redirect-data', 'read before + target = %d + %d bytes, stream has %d; first difference at %d; %d bytes stranded in the collected output'
+                             % (len(p), len(got), len(want), next((i for i, (a, b) in enumerate(zip(p + got, want)) if a != b), min(len(p + got), len(want))), len(left or b''))))
+            elif left:
+                viol.append(('redirect-data', '%d bytes of the redirected stream came back through wait()' % len(left)))
+            if other != other_want:
+                viol.append(('redirect-other-stream', 'the stream that was not redirected delivered %d of %d bytes' % (len(other or b''), len(other_want))))
+            if r.exit_status != 7:
+                viol.append(('redirect-exit-status', repr(r.exit_status)))
+        if loop.unretrieved():
+            viol.append(('loop-exception', repr(loop.exc_log[0].get('exception'))[:200]))
+        return {'viol': viol, 'steps': steps}
+    except Livelock as exc:
+        return {'viol': [('livelock', str(exc))], 'steps': 0}
+    finally:
+        P.done(loop)
+
+
+def late_redirect_worker(job):
+    acc = core.Acc()
+    for cfg, bound in job:
+        name = 'late-redirect|%(which)s|%(kind)s|size=%(size)d|k=%(k)d|pre=%(preread)d' % cfg
+
+        def check(obs, ch, cfg=cfg, name=name):
+            acc.add(core.digest((name, tuple(ch.choices))), transitions=obs['steps'],
+                    sample={'late_redirect': cfg} if cfg['k'] == 6 and cfg['kind'] == 'process' and not ch.choices else None)
+            for k, d in obs['viol']:
+                acc.violation('process:%s:late-%s-%s' % (k, cfg['which'], cfg['kind']), '%s ; %s' % (d, name),
+                              {'kind': 'late-redirect', 'cfg': cfg, 'choices': ch.choices})
+        core.explore_dfs(lambda ch, cfg=cfg: late_redirect_run(cfg, ch), bound, check)
+    shutil.rmtree(os.path.join(SCRATCH, 'lr%d' % os.getpid()), ignore_errors=True)
+    return acc
+
+
+def late_redirect_jobs(tier):
+    jobs = []
+    for which in ('stdout', 'stderr'):
+        for kind in ('path', 'file', 'process', 'devnull'):
+            for size in (40, 64, 65, 200):
+                for preread in (0, 10):
+                    for k in range(0, 26):
+                        if tier == 'quick' and (kind in ('file', 'devnull') or which == 'stderr') and not (size == 200 and preread == 0):
+                            continue
+                        jobs.append((dict(which=which, kind=kind, size=size, k=k, preread=preread), 0 if tier == 'quick' else 1))
+    return [jobs[i::32] for i in range(32)]
+
+
 # ------------------------------------------------------------------ (d) drain
 def drain_run(chooser, cut_at=None):
     loop = P.fresh(0)
@@ -519,13 +688,16 @@ def main(tier, seed):
     orders = exit_orders()
     acc.merge(core.pmap(exit_worker, [orders[i::16] for i in range(16)]))
     acc.merge(core.pmap(redirect_worker, [0]))
+    acc.merge(core.pmap(late_redirect_worker, late_redirect_jobs(tier)))
     acc.merge(core.pmap(drain_worker, [0]))
     shutil.rmtree(SCRATCH, ignore_errors=True)
     rule = ('(a) 7 byte streams + a 3-window stream + a multi-byte text stream x 15 read-call menus (read n / -1 / 0, '
             'readexactly, readline, readuntil with one, several and regex separators incl. overlapping prefixes) x '
             'max packet sizes {1,2,3,5,32768} x packet delivery orders within the deviation bound; (b) %d orders of '
             'stdout/stderr data, EOF, exit-status|exit-signal before CLOSE from the independent peer; (c) 9 '
-            'redirection kinds; (d) drain under all delivery orders (bound 2) and connection loss at every step'
+            'redirection kinds, and stdout/stderr of a running process redirected to a path / file / other process / DEVNULL '
+            'after every number 0..25 of packet deliveries (stream buffer empty, full with the channel paused, after '
+            'EOF, after exit), with and without a read before; (d) drain under all delivery orders (bound 2) and connection loss at every step'
             % len(orders))
     return core.finish(PROP, tier, seed, 'model_checking', acc, t0, rule,
                        {'stream_execs': n_a, 'exit_orders': len(orders), 'deviation_bound': 2 if tier == 'quick' else 3},
@@ -548,6 +720,8 @@ def replay(rep):
         acc = full
     elif r['kind'] == 'exit':
         acc = exit_worker([tuple(r['order'])])
+    elif r['kind'] == 'late-redirect':
+        acc = late_redirect_worker([(r['cfg'], 0)])
     elif r['kind'] == 'redirect':
         acc = redirect_worker(0)
     else:
